@@ -78,6 +78,12 @@ PROP = {
  "C11": "conc: limit exact for every split between history and live, tail, synthetic frames private, stream ends after lag (B = 1 scenarios and production sizes in stress); store: limit on non-following reads incl. expired frames, tail without follow.",
  "C12": "codec: TTL and read-option grammar exhaustively at token level through every spelling and entry point, 2000 seeded ReadOptions round trips; store/http: every accepted frame (meta classes: deep nesting, u64::MAX, i64::MIN, 1e300, escapes, non-object metas, 5 KB strings) reads back identical on every path and survives reopen; a panic in the decoder is an observation.",
  "C13": "http: each route against the store semantics (TraceStore) with status codes, NDJSON = SSE, ~43 malformed request classes answered 4xx with unchanged partitions and a serving server, follow routes.",
+ "C14": "proc: per handler instance, from the dumped stream alone: invoked exactly once ($env counter in the content), in id order, one group at a time, for every eligible frame of its context after its resume point (head / tail / after-id), never for its own output, for old registration traffic of its name or for another context; bursts from several client threads while the closure sleeps; pulse handlers.",
+ "C15": "proc: every output group = explicit appends in call order then the return frame on <name><suffix> with the configured ttl, all stamped {handler_id, frame_id}, in the handler's context whatever --context said, content in CAS and as predicted (every nu return type, colliding user meta, meta values through nu); a failing invocation leaves nothing but one .unregistered with the error.",
+ "C16": "proc: one announcement per registration (.registered, or .unregistered with error for invalid scripts), stop by a later (un)register of the (context, name) - also one the handler appends itself - or a failing trigger, announced exactly once, silent afterwards; at most one responder per (context, name); names that are prefixes of one another. Known findings C16-double-register / C16-unregister-in-flight by their specific pattern only.",
+ "C17": "proc: restart = SIGKILL or exit of the serving process (in thorough: at every position of TLC-generated client lists) and start on the same directory: exactly the active handlers come back with their ids per (context, name), latest valid command definitions answer, accepted generators run again; stopped / replaced / failed ones do not; no historical trigger or call is re-executed.",
+ "C18": "proc: per accepted spawn `start recv* stop` per lifecycle with source_id, context and contents in order, respawn after stop (up to three lifecycles observed), exactly one spawn.error for a refused spawn (no content, (context, name) taken), a refused spawn never runs - not at a later respawn either; duplex sends of its own context fed once, in order. Known finding C18-generator-worker-panic by its pattern only.",
+ "C19": "proc: per call `recv* (complete | error)`, exactly one terminal, last; stamps {command_id, frame_id}; caller's context; latest valid definition of the (context, name); invalid definition reported by .error and never used; per-call isolation ($env), overlapping calls (sleeping closure) keep their stamps apart; explicit .append incl. a byte stream arriving in pieces; no replay after restart.",
  "C20": "store/http: export of a TLC/random-built store imported in random order with duplicates into an empty store (Store API and POST /cas + POST /import): same frames, heads, content, usable contexts; import keeps ids, identical re-import is a no-op, NUL topic or a different frame under a stored id is rejected whole.",
 }
 
